@@ -52,6 +52,7 @@ fn main() {
             }
             let mut w = BufWriter::new(File::create(&args[3]).expect("create output"));
             match args[2].as_str() {
+                "eventlayouts" => tables::eventlayouts(args.get(4).expect("event table json"), &mut w),
                 "layouts" => tables::layouts(&mut w),
                 "preds" => tables::preds(&mut w),
                 "words" => tables::words(&mut w),
